@@ -422,7 +422,7 @@ def _client(h, i, closed):
 class ServerOps(Contract):
     key = 'C18.PortServer'
     target = S + 'PortServer._receive'
-    properties = ('C18',)
+    properties = ('C18', 'C11')      # C11: a blocking receive on ANY port type returns as soon as a message is deliverable
     configs = tuple({'op': op, 'block': b, 'clients': c} for op in ('receive', 'send', 'accept') for b in (False, True)
                     for c in ('', 'o', 'c', 'oc', 'coc', 'ooo') if not (op == 'send' and b))
     raises = {}
